@@ -33,6 +33,12 @@ UNITS['c16'] = {
 PROPS = {
     'C16': {
         'units': ['c16'],
+        'kani': [
+            {'package': 'vk-unicode', 'harness': 'roundtrip', 'obligation': 'C16.kani.roundtrip', 'bounded': True, 'bound': 'all UTF-8 texts <= 4 bytes, all boundary offsets', 'tier': 'thorough', 'decode': 'unicode_text_idx', 'timeout': 1200},
+            {'package': 'vk-unicode', 'harness': 'p2u_matches_reference', 'obligation': 'C16.kani.p2u_reference', 'bounded': True, 'bound': 'texts <= 4 bytes, line <= 5, character <= 9', 'tier': 'thorough', 'decode': 'unicode_text_pos', 'timeout': 1200},
+            {'package': 'vk-unicode', 'harness': 'char_index_matches_reference', 'obligation': 'C16.kani.char_index', 'bounded': True, 'bound': 'texts <= 4 bytes, any offsets (oal-model/src/span.rs utf8_to_char_index, CharSpan::from)', 'tier': 'thorough', 'decode': 'unicode_text_idx', 'timeout': 1200},
+            {'package': 'vk-unicode', 'harness': 'u2p_matches_reference', 'obligation': 'C16.kani.u2p_reference', 'bounded': True, 'bound': 'texts <= 4 bytes, offsets <= 6', 'tier': 'thorough', 'decode': 'unicode_text_idx', 'timeout': 1200},
+        ],
         'level': 'proof',
         'obligation_prefixes': ['C16.'],
         'technique': 'Verus loop invariants on the real conversion functions against an independent reference semantics of LSP positions; round-trip, clamping and span selection as verified callers',
